@@ -81,6 +81,7 @@ u8_enum!(Closure {
     Alloc = 4,
     Collect = 5,
     Panic = 6,
+    NestedNewCyclic = 7,
 });
 
 u8_enum!(ActionKind {
@@ -1376,6 +1377,12 @@ fn make_node_owning(expect_finalized: Option<bool>, own: Option<(u8, Cc<Node>)>)
 /// Like make_node, through Cc::new_cyclic (the closure keeps nothing)
 #[cfg(feature = "weak")]
 fn make_cyclic_node(expect_finalized: Option<bool>) -> Option<(u8, Cc<Node>)> {
+    make_cyclic_node_hook(expect_finalized, None)
+}
+
+/// `hook` runs inside the closure (used by the nested-new_cyclic closure script to look at the *outer* Weak)
+#[cfg(feature = "weak")]
+fn make_cyclic_node_hook(expect_finalized: Option<bool>, hook: Option<&dyn Fn()>) -> Option<(u8, Cc<Node>)> {
     let c = ctx();
     let id = {
         let mut m = c.model.borrow_mut();
@@ -1397,7 +1404,10 @@ fn make_cyclic_node(expect_finalized: Option<bool>) -> Option<(u8, Cc<Node>)> {
             Cc::new_cyclic(|w: &Weak<Node>| {
                 c.model.borrow_mut().inflight_weak.push(id);
                 if w.strong_count() != 0 || w.upgrade().is_some() {
-                    v!("C14", "P-cyclic", "the Weak given to a new_cyclic closure (called inside a finalizer) is alive");
+                    v!("C14", "P-cyclic", "the Weak given to a new_cyclic closure (called inside a callback or another closure) is alive");
+                }
+                if let Some(h) = hook {
+                    h();
                 }
                 let node = Node::new(id);
                 c.model.borrow_mut().objs[id as usize].constructed = true;
